@@ -13,7 +13,7 @@ Oracle for C05.  Three kinds of case lines (first token):
            `opens=<hex>|fail` GCM-Open for exactly these; the model insists on building the same two.
 
 `e2e suite=… dir=… recs=… buf=<n> seg=all|rec exact=0|1 edit=… cls=… glens=… wire=… tail=…`
-    =>  `reads=<r>;<r>;… alert=<n>|-`
+    =>  `reads=<r>;<r>;… alert=<level>.<description>|-`
     a real connection pair after a real handshake; the sender protected `recs`, a man in the
     middle applied `edit`; `wire`/`tail` describe the resulting stream as the receiver frames it
     (`g<i>` = the sender's i-th record untouched, `g<i>.<typ>.<vers>` = its body under an edited
@@ -211,7 +211,12 @@ def judgeE2E (ct ot : List String) : Option Verdict := do
   let fuel := total + attack.length + 8
   let (s, rs) := runReads D tail buf (seg == "all") fuel none {} attack []
   let strs := (rs.map (showRes exact)).flatten
-  let alertStr := match s.alerts.head? with | some a => toString a | none => "-"
+  let alertStr := match s.alerts.head? with
+    | some a =>
+      -- `sendAlertLocked`: warning level for the alerts of the regenerated table, error level otherwise
+      let lvl := if Facts.tlcp.rxWarningLevelAlerts.contains a then P.lvlWarning else P.lvlError
+      s!"{lvl}.{a}"
+    | none => "-"
   let model := s!"reads={";".intercalate strs} alert={alertStr}"
   -- spec on the observation
   let n := goodPrefix P sent SymBody.genuine 0 attack
@@ -219,6 +224,10 @@ def judgeE2E (ct ot : List String) : Option Verdict := do
   -- the damaged record is reached when everything before it is plain non-empty application data
   -- (a close_notify or fatal alert of the sender ends the stream first, legitimately)
   let reached := (sent.take n).all fun r => r.typ == 23 && r.payload.length > 0 && r.payload.length ≤ 16384
+  -- observed `alert=<level>.<description>`
+  let oalert : Option Nat := match ((kv ot "alert").getD "-").splitOn "." with
+    | [_, d] => d.toNat?
+    | _ => none
   let oreads := (kv ot "reads").getD ""
   let obs := if oreads == "-" || oreads == "" then some [] else (oreads.splitOn ";").mapM parseObsRead
   let spec : Option (String × String) :=
@@ -233,10 +242,10 @@ def judgeE2E (ct ot : List String) : Option Verdict := do
         some ("whole", "an error was returned after part of a record only")
       else if !Spec.RecordRx.sticky os then
         some ("sticky", "a read after the first failed read succeeded or delivered bytes")
-      else if cls == "ct" && suite == "cbc" && reached && !Spec.RecordRx.uniformAlertOK ((kv ot "alert").bind String.toNat?) then
+      else if cls == "ct" && suite == "cbc" && reached && !Spec.RecordRx.uniformAlertOK oalert then
         some ("alert-oracle", s!"ciphertext damage on a CBC suite answered with alert {(kv ot "alert").getD "?"}, not bad_record_mac")
       else none
-  let note := if cls == "ct" && suite == "gcm" && reached && (kv ot "alert") != some (toString Spec.RecordRx.badRecordMAC)
+  let note := if cls == "ct" && suite == "gcm" && reached && oalert != some Spec.RecordRx.badRecordMAC
     then "gcm-damage-alert-differs" else s!"first-damage-at-{n}-of-{attack.length}"
   pure { model := model, spec := spec, note := note, trivial := (kv ct "edit") == some "none" && false }
 
